@@ -10,8 +10,10 @@ CLAIMED = {
          "validated by a TLA+ trace specification",
          "Exhaustive TLC check (all call sequences within MaxIn=MaxOut=2, all 13+1 inner return codes, all supported-action "
          "sets) that the transcription of lzma_code satisfies the separately written contract; the transcription is bound to "
-         "the code by replaying every one of its ~90k transitions against the real function and by validating recorded "
-         "histories of the 19 public constructors.",
+         "the code by replaying every one of its ~110k transitions (incl. re-initialisation compositions) against the real "
+         "function and by validating recorded histories of the 19 public constructors: random call sequences incl. illegal ones, "
+         "handle re-initialisation chains (every decoder/encoder pair; the same constructor with another memory limit; the "
+         "informational functions must answer as on a fresh handle), and file-info decoder chunkings around its first seek.",
          "Trusted: TLC, the ctypes/C drivers, ASan/UBSan for memory outside the buffers (guard zones checked explicitly). "
          "Inner coders are abstract (any result); amounts above the model constants are covered by trace validation only.",
          "§4 C11"),
@@ -19,26 +21,32 @@ CLAIMED = {
          "against a sequential-equivalence contract; executions of the real threaded decoder recorded through guarded hooks "
          "and validated by the TLA+ trace specification TraceMtDecoder",
          "TLC explores every interleaving of main thread, 2 workers and an arbitrary application (slicing, output space, early "
-         "lzma_end) for <= 3 Blocks in 16 configurations (valid, corrupt, bad header, bad index, truncated, direct mode, fail-fast, "
-         "timeout, spurious wake-ups, tight memory) and checks output-prefix, terminal equivalence with the sequential decoder, "
+         "lzma_end, re-initialisation, lzma_memlimit_set) for <= 3 Blocks in 30 configurations (valid, corrupt, bad header, bad "
+         "index, truncated, direct mode, fail-fast, timeout, spurious wake-ups, tight memlimit_threading, memlimit_stop refusal "
+         "and restart, LZMA_TELL_* notifications, concatenated Streams with Stream Padding, liveness under weak fairness; thorough: "
+         "also random behaviours with 3 workers) and checks output-prefix, terminal equivalence with the sequential decoder, "
          "no use after free, queue order, no premature BUF_ERROR and (Spurious=FALSE) deadlock freedom / no lost wake-up. The "
          "model is bound to the code by trace validation of every critical section of real runs under TSan with schedule "
-         "perturbation (each event = one model action with arguments bound) plus byte comparison with lzma_stream_decoder.",
+         "perturbation (each event = one model action with arguments bound) plus byte comparison with lzma_stream_decoder; one failing allocation at every ordinal of slicing runs (MEM_ERROR after a "
+         "correct prefix or unchanged behaviour).",
          "Trusted: TLC, TSan (only executed interleavings), the Lipton-reduction argument that critical sections are atomic "
-         "(lock discipline observed on traces), hooks (add-only, guarded), mt_drv.c. Concatenated Streams, memlimit_stop restart "
-         "and cached-memory eviction are not in the model (C09 covers the limits).",
+         "(lock discipline observed on traces), hooks (add-only, guarded), mt_drv.c. Cached-memory eviction order and main-thread "
+         "allocation-failure paths are not in the model (the latter are judged by outcome only).",
          "§4 C07"),
  "C08": ("TLA+ model of stream_encoder_mt.c/outqueue.c (MtEncoder.tla) model-checked by TLC against an ordering / flush / "
          "progress / liveness contract; executions of the real threaded encoder recorded through guarded hooks and validated "
          "by the TLA+ trace specification TraceMtEncoder",
          "TLC explores every interleaving of main thread, <= 2 workers and an arbitrary application (RUN / FULL_FLUSH / "
-         "FULL_BARRIER / FINISH, slicing, output space, lzma_get_progress, early lzma_end) in 8 configurations (worker failure, "
-         "timeout, spurious wake-ups, 1 thread, block_size 1 and 2) and checks ordered output, Blocks partitioning the input only "
+         "FULL_BARRIER / FINISH, slicing, output space, lzma_get_progress, lzma_filters_update, early lzma_end, re-initialisation "
+         "with the same / another block_size / another thread count) in 14-19 configurations (worker failure, main-thread allocation "
+         "failure, timeout, spurious wake-ups, 1 thread, block_size 1 and 2, liveness under weak fairness; two variants of the "
+         "released 5.8.1 behaviour must violate NoLostWorker / InBufFits) and checks ordered output, Blocks partitioning the input only "
          "at block_size / requested offsets, flush / barrier / finish completion conditions, truthful monotone progress, no "
          "premature BUF_ERROR, deadlock freedom. Bound to the code by trace validation of real runs under TSan with schedule "
-         "perturbation, and by decoding / boundary / determinism checks of the produced Streams.",
-         "Trusted: TLC, TSan (only executed interleavings), atomic critical sections, hooks, mt_drv.c. The incompressible-data "
-         "fallback path and threads_stop(wait) at re-initialisation are model-only / not modelled respectively.",
+         "perturbation (incl. the incompressible-data fallback reached with 24 MiB random Blocks, and the failure paths of runs with "
+         "one failing allocation at every ordinal), and by decoding / boundary / determinism / Block Header chain checks of the "
+         "produced Streams.",
+         "Trusted: TLC, TSan (only executed interleavings), atomic critical sections, hooks, mt_drv.c.",
          "§4 C08"),
  "C20": ("TLA+ transcriptions of xzgrep.in / xzdiff.in (XzGrep.tla, XzDiff.tla: option scanner, per-file step, status fold, labelling) "
          "model-checked by TLC against contract modules; TLC-generated plans (options x patterns x file states x hostile name classes) "
